@@ -273,3 +273,25 @@ func H_reflect_defined() {
 	}
 	symx.Reach("end")
 }
+
+// H_reflect_float32_param: a script float passed to a float32 parameter of a registered function:
+// a value float32 can hold (every float32 value incl. NaN, the infinities, signed zeros) arrives
+// as exactly that value; any other value raises a catchable error.
+func H_reflect_float32_param() {
+	f := symx.Float64("f")
+	o, threw, ok := callScript("emit(go_f32($a));", sx.Bind{Name: "a", V: sx.Float(f)})
+	symx.Assert(ok, "float32 parameter: value or catchable error")
+	if !ok {
+		return
+	}
+	representable := float64(float32(f)) == f || f != f
+	if representable {
+		symx.Assert(!threw, "float32 parameter: a value float32 can hold is accepted")
+		if !threw {
+			symx.Assert(o.Kind == 'f' && symx.SameFloat(o.F, f), "float32 parameter: the value arrives (and comes back) exactly")
+		}
+	} else {
+		symx.Assert(threw, "float32 parameter: a value float32 cannot hold is rejected with a catchable error")
+	}
+	symx.Reach("end")
+}
